@@ -128,7 +128,16 @@ def fresh_and_renamed():
             c_reset("soft", b"HEAD@{1}"), c_reset("soft", b"HEAD@{2}"), c_reset("soft", b"HEAD@{0}"), c_reflog()]
 
 
+def newline_names():
+    return ID + [W(b".goitignore", b"*.log\nout/\n"), W(b".goit/a\nb", b"Z"), W(b"x\ny.log", b"l"), W(b"out/p\nq", b"o"),
+                 W(b"ok\nname", b"fine"), W(b"f", b"1"), c_add([b"."]), c_ls_files(False), c_status(),
+                 c_add([b".goit/a\nb"]), c_add([b"x\ny.log"]), c_ls_files(False)]
+
+
+ORACLE_ONLY = {"newline-names"}
+
 DIRECTED = [
+    (("C17",), "newline-names", newline_names, "F46: names with a line break inside .goit, under an ignored directory and with an ignored extension (the model's work tree does not hold files inside .goit: oracle only)"),
     (("C01", "C03"), "fanout", many_objects, "more than forty objects: several share the first two hex digits of their id (fan-out directory); every one must be stored and retrievable"),
     (("C02", "C05"), "dir-file-dir", dir_file_dir, "a level whose sorted entries go directory, file, directory, and siblings lib / lib.go / lib-old"),
     (("C04", "C18"), "rm-file-became-dir", rm_file_became_dir, "a tracked file gave way to a directory holding untracked files: rm must not delete them"),
@@ -153,7 +162,10 @@ def main():
         steps = fn()
         for p in props:
             path = os.path.join(VERIF, "corpus", p, "directed-%s.json" % name)
-            runner.write_replay(path, p, steps, {"kind": "directed", "why": why})
+            info = {"kind": "directed", "why": why}
+            if name in ORACLE_ONLY:
+                info["oracle_only"] = True
+            runner.write_replay(path, p, steps, info)
             n += 1
     print("%d directed histories written" % n)
 
